@@ -90,6 +90,14 @@ def panics(ck, ctx, it, marks, label, geo_pre, results, ssx_ssy=(0, 0)):
                     ck.ob(key, 'PROVED', 'panic condition discharged from the constructor facts (certificate)'); continue
         if any(_is_exists(c) for c in pc) or (cond is not None and _is_exists(cond)):
             continue          # reached only if a produced sample exceeds 2^n-1: see the code clause
+        # an assertion that always holds: the path condition in front of the panic (or the negated assert condition) can
+        # never be true for any sample values, NaN and infinities included (interval + may-NaN evaluation per conjunct)
+        try:
+            from engine import frange as FR_
+            if not FR_.pc_feasible([c for c in pc if not _is_exists(c)]) or (cond is not None and not FR_.truth(cond)[1]):
+                ck.ob(key, 'PROVED', 'the panic sits behind a condition no sample value satisfies (interval + NaN-flag evaluation)', nontrivial=True); continue
+        except Unsupported:
+            pass
         if dep:
             ck.ob(key, 'REFUTED' if pn.get('definite') else 'UNDECIDED',
                   f"a panic exit ({where}, line {pn.get('ln')}) is reachable depending on pixel data: {str(cond)[:160]}")
